@@ -35,7 +35,7 @@ func genCase(t *rapid.T) Case {
 		c.Ctx = gen.Context(t, 20)
 	} else {
 		c.Op = cheap[gen.Pick(t, len(cheap), "op")]
-		c.Ctx = gen.Context(t, 60)
+		c.Ctx = gen.Context(t, 400)
 	}
 	op := c.Op
 	switch op {
